@@ -219,3 +219,25 @@ CLAIMS = {
         design_ref="DESIGN.md 6/C05",
     ),
 }
+
+# extensions of round 9 (appended to the claims above)
+EXTRA = {
+    "C03": "RenumberTheorem is also replayed at real scale: an 80 x 80 (QUAD4) and a 60 x 60 (TRI3) plate in the mesher's numbering and renumbered at random - stiffness and the load vectors of a line load and a body force are the permutation of the original ones; connectivity stored in uint8 / int16 / uint16 is a fixed scenario.",
+    "C04": "Constraints.tla has a Reset action (Bc_Init after a solve, another condition set on the SAME object; MaxRounds): the solution of a round is a function of that round's conditions alone; two-round chains are enumerated by TLC and replayed on one simulation object (direct and bounded least-squares routes).",
+    "C05": "TimeSchemes.tla also tabulates the one-step maps as per-dof weight tables (Weights, confirmed by the invariant Affine on every explored step), which are applied to real simulations of any size (Elastic 2-D with Rayleigh damping, Elastic 3-D, Thermal, Euler-Bernoulli and Timoshenko beams: update relations, equation of motion at the evaluation point on the free dofs, prescribed values); states refused set-calls (Admissible, StepAfterRefusal, RefusedKeeps; the design in which a refused call has already switched the scheme is rejected) and linearity of a step in its data (Homogeneous, TLC on k = 2, 1/2; behaviours replayed with the data scaled by 1e-18, 1e-7, 1e9).",
+    "C06": "A table written with array functions the polynomial ring cannot run is read numerically (least-squares fit at generic points, checked against fresh samples and, on every run, against the exact reading); all five tables are evaluated at the reference nodes.",
+    "C07": "The re-coordinated (general straight-sided) meshes are also placed far from the origin (5e5, 4.5e6) and written in a unit 1e9 times larger: measure, element sizes and the integral of 1 on both rules follow the scaling law.",
+    "C08": "spec/GeometryViews.tla adds views - queries in a moved configuration through the displacementMatrix keyword - to the histories: a view is not a motion (PureView, FrameIsFoldOfMoves); every history of one motion and one view is replayed (normals / Gauss points of the moved configuration, twice; nothing of the mesh moves; all later answers are those of the frame).",
+    "C09": "The selection is a LIST of node ids in any order (Loads.tla, field order): nodal-array intensities are replayed on ascending and on permuted selections.",
+    "C10": "Among the problems of every frame are bodies assembled from a part and its mirror image (Mesh.Merge of a mesh and of its Symmetry copy: half of the elements are orientation-reversed), loaded by a pressure across both halves, in 2-D (TRI3, QUAD4) and 3-D (HEXA8).",
+    "C11": "ParamCache.tla also has MutateSource (the caller's array modified and NOT assigned again): which content the next read shows is free, but stiffness and compliance read together come from one content (Paired; the design alias_c - the stiffness IS the caller's array - is rejected); replayed on field parameters and on Anisotropic laws given by their matrix (Voigt / Kelvin-Mandel, homogeneous / per element).",
+    "C12": "det / trace / inv / transpose are homogeneous in their operand (FeShapes.tla, ScaleDegree): each is applied again to the operand multiplied by 1e-14 and must return the result multiplied by 1e-14^degree.",
+    "C13": "A form is linear in its weights (Forms.tla, Homogeneous; TLC on k = 2, 1/2): every second form is integrated and assembled again with its weights multiplied by 1e-9.",
+    "C14": "spec/MeshCopy.tla (a mesh and its copies: Compute / Move / Copy over three slots; ReadCurrent, Independent; the design shared_cache is rejected) is replayed on real meshes: the cached geometry matrices read on any mesh of a history are those of a mesh built afresh from its coordinates. The adapter ElasticSmallUnits runs the life cycle with densities of order 1e-9 (matrices compared relative to themselves).",
+    "C15": "Lifecycle.tla has ResultAt (a named result asked for iteration i restores that iteration, then reads - Restores covers it): Result(name, iter=i) is replayed against an explicit Set_Iter followed by the read (values, mesh, fields), in the store behaviours and in dense short behaviours over SaveIter / SetMesh / ResultAt / Solve / SetIter on four simulation types (PhaseField with two meshes of equal size).",
+    "C17": "The materials include an Anisotropic law given by its matrix (every split) and the same law after Set_C(..., update_S=False) (He split, which is defined from the stiffness alone).",
+    "C19": "The commit behaviours of InelasticCommit.tla are also replayed on a QUAD4 + TRI3 mesh: every element group goes through the trial / commit cycle.",
+    "C20": "Size classes: a third-order type with 7 - 8 parts (its boundary group is listed after the bulk type) in the quick tier, 24 - 64 parts on meshes of 2000 - 4000 nodes in the thorough tier, judged by Trace_Partition.tla.",
+}
+for _k, _v in EXTRA.items():
+    CLAIMS[_k]["text"] += " " + _v
